@@ -87,7 +87,8 @@ fn n_call1(vm: &mut Vm<Aux>, f: Value, x: Value) -> Result<Value, ExecutionError
 pub const MENU: [&str; 4] = ["log1", "add2", "fail0", "call1"];
 
 /// hand-written witnesses, run before the random programs
-const CORPUS: [(&str, &str); 6] = [
+const CORPUS: [(&str, &str); 7] = [
+    ("R-1a", include_str!("../../findings/C01/R-1a_min_by_key_key_function_appends_segfault.json")),
     ("R-1b", include_str!("../../findings/C01/R-1b_min_by_key_key_function_grows_table.json")),
     ("R-2a", include_str!("../../findings/C01/R-2a_captured_local_below_a_statement_value.json")),
     ("R-2b", include_str!("../../findings/C01/R-2b_two_captured_locals_in_one_loop_body.json")),
